@@ -41,6 +41,8 @@ def feats_for(src, dst, rng):
         f.update(window=True, real_div=0.15)
     if src == dst:
         f.update(div=False)
+    else:
+        f.update(avg=False)     # see Gen.agg_expr: non-integer values only arise in the real-division chains, which are never fed to % or casts
     return f
 
 
@@ -92,6 +94,13 @@ def _case(ctx, i, q, text, src, dst, tables, data, mode, ordered):
                 ctx.count("engines_disagree_dropped")
                 return
             ctx.count("reference_confirmed_by_target_engine" if ref[0] == "ok" else "source_only_syntax")
+            if ref[0] != "ok" and b[0] != "ok" and str(ref[1]) == str(b[1]) and "syntax error" not in str(b[1]).lower() \
+                    and "parser error" not in str(b[1]).lower():
+                # the target engine rejects the generator's own text for it with the very same (non-syntax) error, e.g. SQLite
+                # 3.40's "ON clause references tables to its right" after a RIGHT JOIN: a limit of that engine, not a
+                # translation (an untranslated construct would be a syntax error and is still reported)
+                ctx.count("target_engine_rejects_generator_text_too(dropped)")
+                return
         ctx.count(f"compared:{src}->{dst}")
         if a[1]:
             ctx.nt([text, src, dst])
